@@ -697,9 +697,31 @@ func TestVerifC12Lab(t *testing.T) {
 		t6.v6, t6.name = true, "ns-fanout-v6"
 		boundary = append(boundary, t6)
 	}
+	// warm-cache over-budget scenarios (EDNS client, the second client's chase starts from a cache
+	// hit): fixed budgets, appended to the boundary list
+	type vC12Fixed struct {
+		maxOut, maxInt uint32
+		qmin           bool
+	}
+	fixed := map[int]vC12Fixed{}
+	for _, f := range []struct {
+		t              vC12Topo
+		maxOut, maxInt uint32
+		qmin           bool
+	}{
+		{vC12Cname(5, true), 42, 10, true}, {vC12Cname(4, true), 40, 6, false}, {vC12Cname(14, false), 60, 5, true},
+		{vC12Cname(25, false), 128, 9, false}, {vC12Dname(8, false), 64, 3, true},
+	} {
+		fixed[len(boundary)] = vC12Fixed{f.maxOut, f.maxInt, f.qmin}
+		boundary = append(boundary, f.t)
+	}
 	for c := 0; c < n+len(boundary); c++ {
 		qmin := r.Intn(2) == 0
 		edns := r.Intn(4) != 0
+		fx, isFixed := fixed[c]
+		if isFixed {
+			qmin, edns = fx.qmin, true
+		}
 		// ---- enforce: budgets, including very small ones
 		topo := vC12RandTopo(r, false)
 		if c < len(boundary) {
@@ -713,7 +735,12 @@ func TestVerifC12Lab(t *testing.T) {
 		if topo.v6 {
 			budget = 4
 		}
+		if isFixed {
+			budget = 5
+		}
 		switch budget {
+		case 5:
+			maxOut, maxInt = fx.maxOut, fx.maxInt
 		case 4:
 			maxOut, maxInt = uint32(10+2*topo.p1), uint32(topo.p1+1)
 		case 0:
@@ -756,15 +783,10 @@ func TestVerifC12Lab(t *testing.T) {
 				goFail = "no reply written to the client"
 			}
 			one := func(tag string, x, next vC12Reply) {
-				fkey := ""
 				// a second client meets a warm cache: the cold-cache predictions per family do not apply
 				fam := topo.fam
 				if tag != "" {
 					fam += 100
-				}
-				// known finding: only the cache-hit path (a second client, warm cache) loses the EDE
-				if tag != "" && x.first != 0 && edns && x.rcode == dns.RcodeServerFailure && x.ede == 0 {
-					fkey = "overbudget-servfail-without-ede"
 				}
 				emit(map[string]any{
 					"k": "lab-enforce-" + tag + topo.name,
@@ -772,7 +794,6 @@ func TestVerifC12Lab(t *testing.T) {
 						x.packets, x.ledOut, x.ledInt, x.runs, x.first, vC12Rcode(x.rcode), x.ede, next.packets, vC12Rcode(next.rcode), next.ede),
 					"nontrivial": x.first != 0 || uint32(x.packets) == maxOut,
 					"go_fail":    goFail,
-					"fkey":       fkey,
 					"desc":       desc,
 				})
 			}
